@@ -68,7 +68,7 @@ def plan(tier, seed):
     if tier == "quick":
         n, per, real = 16, 220, 1
     else:
-        n, per, real = 64, 2600, 4
+        n, per, real = 64, 5000, 6
     return [{"seed": seed * 1000 + i, "n": per, "real": real} for i in range(n)]
 
 
